@@ -422,6 +422,56 @@ fn patterns(a: &Args) {
     rec.out.finish();
 }
 
+/// ties out=<trace> seed=N : f32 values have 2^23 levels, so two different items can fall into the same bin with exactly
+/// the same value.  Search such witness pairs (birthday search over single-item sketches) and stream them in both orders,
+/// item-wise and as slices, alone and among other items: the sketch must not depend on the order (C04), and sketch_slice
+/// must agree with item-wise streaming (C09).
+fn ties(a: &Args) {
+    silence_panics();
+    let seed = a.u64_or("seed", 1);
+    let mut rng = rng_from(seed, 912);
+    let mut rec = Recorder { out: Out::create(&a.str("out")), run: 0, limit_ms: a.u64_or("limit_ms", 3000), probes: HashMap::new() };
+    start_watchdog(a.str("out"), a.u64_or("hang_ms", 10000));
+    rec.out.line(&json!({"kind": "dens"}));
+    let npairs = a.usize_or("pairs", 3);
+    for alg in ["opt", "rev"] {
+        for m in [4usize, 16, 100] {
+            let mut seen: HashMap<(usize, u32), u64> = HashMap::new();
+            let mut found: Vec<(u64, u64)> = Vec::new();
+            let base = rng.random::<u64>() >> 20;
+            let mut i = 0u64;
+            while found.len() < npairs && i < 3_000_000 {
+                let x = base + i;
+                i += 1;
+                let mut s = make(alg, "f32", m);
+                s.sketch(x);
+                let (hs, _, init, _) = s.raw();
+                if let Some(k) = (0..m).find(|k| init[*k]) {
+                    let key = (k, (hs[k] as f32).to_bits());
+                    if let Some(y) = seen.get(&key) {
+                        found.push((*y, x));
+                    } else {
+                        seen.insert(key, x);
+                    }
+                }
+            }
+            for (x, y) in found {
+                let others: Vec<u64> = (0..3).map(|_| rng.random::<u64>()).collect();
+                let items = vec![x, y, others[0], others[1], others[2]];
+                let ops = vec![
+                    json!(["sk", 1, 1]), json!(["sk", 1, 2]), json!(["en", 1]),
+                    json!(["sk", 2, 2]), json!(["sk", 2, 1]), json!(["en", 2]),
+                    json!(["sl", 3, [1, 2]]), json!(["sl", 4, [2, 1]]),
+                    json!(["sk", 5, 3]), json!(["sk", 5, 1]), json!(["sk", 5, 4]), json!(["sk", 5, 2]), json!(["sk", 5, 5]), json!(["en", 5]),
+                    json!(["sl", 6, [5, 2, 4, 1, 3]]),
+                ];
+                rec.one_run(&json!({"tie": [x.to_string(), y.to_string()]}), &ops, 6, alg, "f32", m, &items);
+            }
+        }
+    }
+    rec.out.finish();
+}
+
 /// big out=<json> seed=N : large sketches, sampled; harness-side predicate (R1/R2 of the trace spec) only
 fn big(a: &Args) {
     silence_panics();
@@ -493,6 +543,7 @@ fn main() {
     match argv[1].as_str() {
         "replay" => replay(&a),
         "patterns" => patterns(&a),
+        "ties" => ties(&a),
         "big" => big(&a),
         "probe-empty" => probe_empty_child(&a),
         other => tool_error(&format!("unknown subcommand {}", other)),
